@@ -329,6 +329,7 @@ class Script(object):
         if not env_data:
             env_data = {}
 
+        pos_start = script.tell()
         chb = script.read(1)
         ch = int.from_bytes(chb, 'big')
         data = None
@@ -424,7 +425,7 @@ class Script(object):
             blueprint = blueprint[0]
         s = cls(commands, message, keys=keys, signatures=signatures, blueprint=blueprint, env_data=env_data,
                 hash_type=hash_type)
-        script.seek(0)
+        script.seek(pos_start)
         s._raw = script.read()
 
         s.script_types = _get_script_types(blueprint, is_locking=is_locking)
